@@ -37,6 +37,7 @@ func genCase(profile string) *rapid.Generator[Case] {
 		}
 		c.Cfg.InCh = rapid.IntRange(1, 8).Draw(t, "inch")
 		c.Cfg.OnError = rapid.IntRange(0, 3).Draw(t, "onerror") == 0
+		c.Cfg.EarlyLookups = rapid.IntRange(0, 3).Draw(t, "earlyLookups") == 0
 		c.Cfg.QDurMs = rapid.SampledFrom([]int{1000, 3000}).Draw(t, "qdur")
 		var sets []string
 		if profile == "shutdown" {
@@ -50,7 +51,7 @@ func genCase(profile string) *rapid.Generator[Case] {
 		// clock: requests pile up behind a parked query listener while the event expires
 		queryHeavy := gateName == "query" || gateName == "listener"
 		hot := []string{"svc.s.1", "svc.s.2", "svc.t.a.1", "svc.t.a.2", "svc.r.1", "svc.m.1", "svc.m.w.a.x", "svc.t.a.1", "svc.m.fixed", "svc.m.q.1",
-			"svc.u.book.1", "svc.u.toy.1", "svc.m.a.b", "svc.m.c.b", "svc.r.1", "svc", "svc", "svc.m.n.a.1", "svc.m.n.a.2", "svc.x.a.1", "svc.x.a.2", "svc.m.n.k.1.a", "svc.m.n.k.2.a"}
+			"svc.u.book.1", "svc.u.toy.1", "svc.m.a.b", "svc.m.c.b", "svc.r.1", "svc", "svc", "svc.m.n.a.1", "svc.m.n.a.2", "svc.x.a.1", "svc.x.a.2", "svc.m.n.k.1.a", "svc.m.n.k.2.a", "svc.z.1"}
 		genRID := rapid.OneOf(rapid.SampledFrom(hot), rapid.SampledFrom(hot), rapid.SampledFrom(allRIDs))
 		foreign := func() Op {
 			return Op{K: "foreign", Typ: rapid.SampledFrom([]string{"reset", "resetall", "token", "tokenid", "tokenreset", "event", "queryevent", "queryevent"}).Draw(t, "ftyp"), RID: rapid.SampledFrom(allRIDs[:10]).Draw(t, "rid")}
